@@ -9,8 +9,8 @@ import (
 // VHStore abstracts the function-data store of package spine so that the
 // generic part of the C11 harness can live next to the list descriptors.
 type VHStore interface {
-	Replace(list any)                                                         // full update (no filter, persisting)
-	Copy() any                                                                // what the API hands to the application
+	Replace(list any)                                                        // full update (no filter, persisting)
+	Copy() any                                                               // what the API hands to the application
 	Update(remoteWrite, persist bool, upd any, fp, fd *FilterType) (ok bool) // one update
 }
 
